@@ -6,7 +6,7 @@ import shutil
 import subprocess
 import time
 
-from .common import SPEC, MachineryError, log
+from .common import SPEC, MachineryError, log, run_group
 
 JAR = "/opt/veriftools/tla/tla2tools.jar"
 DEPS = "/opt/veriftools/tla/CommunityModules-deps.jar"
@@ -102,10 +102,8 @@ def run(ctx, module, cfg, workers=8, timeout=600, simulate=None, depth=None, see
     res.cmd = " ".join(cmd)
     t0 = time.time()
     try:
-        p = subprocess.run(cmd, cwd=d, stdout=subprocess.PIPE, stderr=subprocess.STDOUT,
-                           timeout=timeout, text=True, errors="replace")
+        p = run_group(cmd, timeout, cwd=d)
     except subprocess.TimeoutExpired:
-        subprocess.run(["pkill", "-f", meta], check=False)
         raise MachineryError("TLC timeout after %ss: %s %s" % (timeout, module, cfg))
     res.wall = round(time.time() - t0, 2)
     lines = p.stdout.splitlines()
